@@ -72,6 +72,10 @@ func (c *AesCipher) Decrypt(cipherTextWithIv []byte) ([]byte, error) {
 	if err != nil {
 		return nil, fmt.Errorf("failed to decode IV: %w", err)
 	}
+	if len(iv) != IV_LENGTH {
+		// gcm.Open panics on a nonce of the wrong length
+		return nil, fmt.Errorf("invalid IV length %d, expected %d", len(iv), IV_LENGTH)
+	}
 
 	cipherText, err := base64.StdEncoding.DecodeString(string(cipherTextB64))
 	if err != nil {
